@@ -237,14 +237,24 @@ func Tail(b []byte, n int) string {
 
 // ChildCase is printed by a child before it executes case idx, so the parent knows the culprit of a death.
 func ChildCase(idx int, desc interface{}) {
+	// every so often publish a snapshot of what was observed so far: a later death must not lose it
+	childCases++
+	if curChildRes != nil && childCases%20 == 0 {
+		os.Stdout.Write([]byte("@SNAP "))
+		curChildRes.WriteChild("-")
+	}
 	b, _ := json.Marshal(desc)
 	os.Stdout.Write([]byte(fmt.Sprintf("@CASE %d %s\n", idx, b)))
 }
+
+var curChildRes *res.R
+var childCases int
 
 // ChildDone prints the child's mergeable result.
 // ChildResult returns a result collector for a child that streams violations as they happen.
 func ChildRes(prop string) *res.R {
 	r := res.New(prop)
+	curChildRes = r
 	r.OnViolation = func(v res.Violation) {
 		b, _ := json.Marshal(v)
 		os.Stdout.Write(append(append([]byte("@V "), b...), '\n'))
@@ -284,12 +294,20 @@ func RunBatch(c *Ctx, name string, start, end int, extra interface{}, timeout ti
 		gotResult := false
 		yieldAt := -1
 		var streamed []res.Violation
+		var lastSnap []byte
+		snapIdx := start - 1
 		for _, line := range bytes.Split(cr.Stdout, []byte("\n")) {
 			if bytes.HasPrefix(line, []byte("@V ")) {
 				var v res.Violation
 				if json.Unmarshal(line[3:], &v) == nil {
 					streamed = append(streamed, v)
 				}
+				continue
+			}
+			if bytes.HasPrefix(line, []byte("@SNAP ")) {
+				lastSnap = append([]byte{}, line[6:]...)
+				streamed = streamed[:0] // violations so far are inside the snapshot
+				snapIdx = lastIdx
 				continue
 			}
 			if bytes.HasPrefix(line, []byte("@YIELD ")) {
@@ -318,10 +336,14 @@ func RunBatch(c *Ctx, name string, start, end int, extra interface{}, timeout ti
 		}
 		deaths++
 		if !gotResult {
+			if lastSnap != nil {
+				c.R.MergeBytesNoEval(lastSnap)
+			}
 			for _, v := range streamed {
 				c.R.Violation(v.Sig, v.What, v.Replay)
 			}
 		}
+		_ = snapIdx
 		if lastIdx < start {
 			// died before the first case: nothing to blame, give up on this batch
 			c.R.Inconcl(fmt.Sprintf("child %s died before its first case (exit %d, timeout=%v): %s", name, cr.Exit, cr.TimedOut, Tail(cr.Stderr, 400)))
